@@ -111,6 +111,10 @@ def destroyConnection(self: Obj("YowNetworkLayer"), reason: Opt(Value("reason"))
     modifies(self.state, self._disconnect_reason)
     ensures(self.state == DISCONNECTING and same_obj(self._disconnect_reason, reason) and net_inv(self))
     ensures(n_events("dispatcher.disconnect") == 1 and same_obj(event_arg("dispatcher.disconnect", 0, 0), self._dispatcher))
+    # the layer is already marked as going down, with its reason, WHEN the dispatcher is told to close: a dispatcher that reports the
+    # close synchronously (asyncore: disconnect -> handle_close -> onDisconnected) must find DISCONNECTING, and nothing may overwrite
+    # the state it leaves behind (a stale DISCONNECTING would let a late second close notification announce "down" twice)
+    ensures(at_event("dispatcher.disconnect", 0, self.state == DISCONNECTING))
     propagates("dispatcher.disconnect")
 
 
